@@ -7,11 +7,13 @@ use std::panic;
 mod util;
 mod e_merge;
 mod e_lcov;
+mod e_markers;
 
 fn dispatch(engine: &str, case: &Value) -> Value {
     match engine {
         "merge" => e_merge::run(case),
         "lcov" => e_lcov::run(case),
+        "markers" => e_markers::run(case),
         "lcov_rt" => e_lcov::run_rt(case),
         _ => json!({"error": format!("unknown engine {}", engine)}),
     }
